@@ -94,6 +94,21 @@ CHECKS['C16'] = dict(
          'stay a factor 10 away from the tolerance boundary; bool lists and mixed-type lists are outside the domain.',
     ref='§5 C16')
 
+CHECKS['C05'] = dict(
+    technique='Lean 4 theorems over the decision logic (name model + attribute model + progress records) + differential correspondence on group histories',
+    text=('Theorems (Usid/Properties/C05.lean) over the model of check_for_old / _check_for_duplicates / the reuse decision '
+          'of compute(): a group is returned without computing only if it exists, is named for exactly this dataset and '
+          'tool, matches every requested parameter and carries a well-formed progress record marking every position; '
+          'otherwise the LAST matching group with a well-formed incomplete record is resumed and there is no complete one; '
+          'otherwise (iff neither exists) a fresh group; groups of other datasets/tools, with different parameters, or with '
+          'malformed/missing records (wrong dtype/length/rank, non-dataset, values outside {0,1}, neither record) are '
+          'never returned or resumed; a forced fresh computation is always fresh and construction leaves every group '
+          'exactly as found. Correspondence: histories of raw-h5py result groups of every kind, same-file and separate '
+          'file, then a real Process is constructed and compute(override) run; provenance oracle with harness tags.'),
+    note=COMMON_NOTE + 'Known finding KF-D15: in a separate target file the source is identified by dataset name only. '
+         'Parameter matching inherits C16 (float-array tolerance).',
+    ref='§5 C05')
+
 REASON_PENDING = 'check not built yet in this round (planned: Lean model + theorems + correspondence, see DESIGN.md §5)'
 
 
